@@ -38,8 +38,9 @@ chk("C16", "static analysis: MIR decision tables vs Ord/PartialEq, lexicographic
     "lengths; counter starts at 0, +1, guarded) must be lexicographic; equality loops likewise; U8Ordering constants/mapping. "
     "Symbolic in all values, so it covers the pairs tests cannot enumerate.",
     "Trusted: rustc MIR; the step from one-iteration tables to the whole loop is the standard induction on the counter "
-    "(premises checked: init 0, +1, guard). assertc_eq!/assertc_ne! polarity and the const_eq!/const_cmp! coercion macros are "
-    "covered only through the functions they expand to.")
+    "(premises checked: init 0, +1, guard). The macros (const_cmp_for!/const_eq_for! option and slice arms in all four "
+    "comparator forms, const_cmp!/const_eq! on each supported type, assertc_eq!/assertc_ne!) are expanded in a witness crate "
+    "(37 + 6 witnesses) and decided by the same tables (TAB-MACRO, TAB-ASSERT: returns exactly when the relation holds).")
 chk("C05", "static analysis: exact byte-set computation, MIR iteration decision tables, delegation rules",
     "The byte set removed by the whitespace trimmers is computed exactly from the loop's continue condition and must equal "
     "u8::is_ascii_whitespace; the strip_prefix/strip_suffix loops and the two-level trim_*_matches loops are compared as "
@@ -69,7 +70,8 @@ chk("C12", "static analysis: exact byte classes from MIR branch conditions, recu
     "Trusted: rustc MIR; Horner recurrence is checked as the one-iteration relation (induction over digits is the written step).")
 chk("C09", "static analysis: per-type MIR step tables, one-step iterator decision tables, forward/reverse isomorphism",
     "increment/decrement are decided per Step type (12 integer arms + char): finished flags = start>end / start>=end, next = "
-    "start+1 / end-1 with the overflow flag of that very operation, char arm with the D7FF<->E000 jump and 10FFFF/0 overflow; "
+    "start+1 / end-1 with the overflow flag of that very operation, char arm as a decision table over the value classes of the stepped scalar x every other condition it branches on (D7FF<->E000 "
+    "jump, 10FFFF/0 overflow, +-1 otherwise); "
     "the next/next_back of RangeIter, RangeInclusiveIter, RangeFromIter are compared as one-step tables (yielded value, new "
     "(start,end), the (MAX,MIN) exhausted encoding) with std's range step relation; the Rev types must be the forward types "
     "stepping from the other end; MIN_VAL/MAX_VAL of all 13 types; const_into_iter field mapping. Symbolic in the bounds, so "
@@ -92,7 +94,7 @@ chk("C06", "static analysis: one-step MIR transition tables vs std's SplitIntern
     "mirrored rule for rsplit_terminator); RSplit must be Split stepping from the other end; constructors must pick "
     "Empty(Start) exactly for an empty delimiter; rsplit = split.rev(), rsplit_terminator copies split_terminator's fields, "
     "remainder() returns the remainder field. Symbolic in string and delimiter.",
-    "Trusted: rustc MIR. The sequence of pieces follows from the one-step tables by the simulation argument in DESIGN.md "
+    "Trusted: rustc MIR; find/rfind return Some only when the needle fits in the haystack (C04). The sequence of pieces follows from the one-step tables by the simulation argument in DESIGN.md "
     "App. D (not mechanised); find/rfind are C04, the boundary search is C07.")
 chk("C08", "static analysis: one-step MIR decision tables over (offset,count) views vs std's slice-iterator steps, forward/reverse isomorphism",
     "next/next_back of Iter, IterCopied, Windows, Chunks::next, RChunks::next, ChunksExact, RChunksExact and ArrayChunks are "
@@ -152,12 +154,13 @@ chk("C20", "static analysis: MIR scan/walk templates, decision tables, loop rela
     "from the same ARGS constant.",
     "Trusted: rustc MIR, char::len_utf8 (std) vs encode_utf8 arms (C07), the &CStr type invariant for the walk. Not decided: "
     "the bytes of the resulting constants (that would need compile-time evaluation as an oracle).")
-chk("C11", "static analysis: MaybeUninit init-typestate (dominance on the pruned CFG) over macro expansions in a witness crate, protocol rules for ArrayBuilder",
+chk("C11", "static analysis: MaybeUninit init-typestate (path coverage on the pruned CFG) over macro expansions in a witness crate, protocol rules for ArrayBuilder",
     "array::map!, from_fn! (typed and untyped), map_!, from_fn_!, collect_const! (plain, filter, flat_map, skip/take) and "
     "string::from_iter! (str and char items) are expanded in a witness crate, also with closures containing break, "
     "continue, return, panic! and a labelled break. For every assume_init site the rule requires: dominated by the true edge "
-    "of counter == LEN; every increment of the counter dominated (on the CFG pruned by the BuildArray/ComputeLength "
-    "discriminant) by a MaybeUninit::new store at that counter, or by a copy loop for variable steps; no other writer of "
+    "of counter == LEN; for every increment of the counter, every path (on the CFG pruned by the BuildArray/ComputeLength "
+    "discriminant) from reading the counter through the increment to the next iteration or to assume_init executes a "
+    "MaybeUninit::new store at the pre-increment index, or a copy loop covers a variable step; no other writer of "
     "the counter - so no control flow in a closure can reach assume_init with an unwritten slot. Element i must be the closure "
     "applied to input i; ArrayBuilder push/build/new/as_slice follow the inited protocol and only new/push/copies write "
     "`inited`; map_! forgets the consumer only after next() returned None and then builds; both collect_const passes call the "
@@ -193,13 +196,17 @@ chk("C01", "static analysis: unsafe-operation inventory from MIR against an obli
     "(unwind) paths are not analysed. That the byte matchers cut only after whole matches is C04/C05's behaviour.")
 chk("C10", "static analysis: translation validation of macro expansions - per-iteration relation extracted from witness MIR vs relation composed from per-method reference semantics",
     "A generator enumerates type-correct chains from the documented method grammar (every adapter alone x every consumer, all "
-    "ordered adapter pairs x 3 consumers: 480 chains; thorough: +1500 seeded depth-3 chains) over opaque source types whose "
+    "ordered adapter pairs x 3 consumers, plus flat_map/flatten alone and combined with every adapter on either side x every "
+    "consumer: about 900 chains; thorough: +2500 seeded depth-3 chains) over opaque source types whose "
     "next/next_back and all closures are marker calls. rustc expands the macros; from each generated function's MIR the "
     "loop's iteration relation (paths to continue/exit with ordered marker calls and their outcomes, counter tests and "
     "updates, result value, initial state) is extracted and must equal the relation composed from one reference entry per "
     "method (std semantics of filter, filter_map, map, copied, enumerate, skip, skip_while, take, take_while, zip incl. "
-    "its direction after rev, and of the 13 consumers). The direction rule reports positional adapters before a reversing "
+    "its direction after rev, and of the 13 consumers); for flat_map/flatten the outer and the inner loop are extracted "
+    "separately (state symbol by state symbol: which loop carries what, entry values of the inner loop, exits, back edges to "
+    "either header) and compared with the two-phase schema. The direction rule reports positional adapters before a reversing "
     "method (12 (adapter,reverser) pairs, a design limitation recorded as known findings).",
     "Trusted: rustc expansion/MIR; the written equivalence between the pull-based schema and std for side-effect-free "
-    "sources (DESIGN.md App. A). flat_map/flatten and collect_const are outside the composer (INIT for collect_const is C11).",
+    "sources (DESIGN.md App. A). At most one flat_map/flatten per chain; collect_const is outside the composer (INIT for "
+    "collect_const is C11); chains whose counter is never carried round a loop are skipped and counted (TV-SKIP).",
     cat="translation_validation")
